@@ -269,6 +269,27 @@ func checkC03(c *Check) {
 					ok = true
 				}
 			}
+			// the elements come out of a map the function filled itself, and every insertion is behind the filter
+			if len(call.Call.Args) == 2 && strings.Contains(Sym(call.Call.Args[1]), "next(range(make:map[") {
+				nput, allGuarded := 0, true
+				eachInstr(fn, func(j ssa.Instruction) {
+					mu, isMU := j.(*ssa.MapUpdate)
+					if !isMU {
+						return
+					}
+					nput++
+					g := false
+					for _, a := range factsAt(mu.Block()) {
+						if a.Op == "eq" && strings.HasSuffix(Sym(a.X), ".State") && Sym(a.Y) == openK {
+							g = true
+						}
+					}
+					allGuarded = allGuarded && g
+				})
+				if nput > 0 && allGuarded {
+					ok = true
+				}
+			}
 		})
 		c.Ob("R4", "open-payment enumeration keeps only State==PaymentOpen", fn.Pos(), ok, "closed payments would be settled / closed again")
 	}
@@ -891,6 +912,41 @@ func (c *Check) paymentCreateGuards(rule string, settle *ssa.Function, mut map[*
 				okOD = false
 			}
 		}
+	}
+	// the contract its callers build on (the lease handler writes the lease as active from copies it read before the
+	// call): PaymentCreate reports success only if its settlement did not overdraw the account (an overdraw fires the
+	// close hooks on everything under the deployment) and only after the payment record was stored
+	if sc != nil {
+		bi := -1
+		res := sc.Call.Signature().Results()
+		for i := 0; i < res.Len(); i++ {
+			if b, isB := res.At(i).Type().(*types.Basic); isB && b.Kind() == types.Bool {
+				bi = i
+			}
+		}
+		okSucc, okStored, nret := true, true, 0
+		for _, r := range successReturns(fn) {
+			nret++
+			notOD := false
+			for _, a := range factsAt(r.Block()) {
+				if a.Op == "false" {
+					if ex, isEx := a.X.(*ssa.Extract); isEx && ex.Tuple == ssa.Value(sc) && ex.Index == bi {
+						notOD = true
+					}
+				}
+			}
+			if !notOD {
+				okSucc = false
+			}
+			if !mustPassFrom(fn, nil, r, func(in ssa.Instruction) bool {
+				call, isC := in.(ssa.CallInstruction)
+				return isC && isMutation(call, mut) && call != ssa.CallInstruction(sc) && !(call.Common().StaticCallee() != nil && len(settleCallsIn(l, call.Common().StaticCallee(), settle)) > 0)
+			}) {
+				okStored = false
+			}
+		}
+		c.Ob(rule, "PaymentCreate reports success only if its settlement did not overdraw the account", fn.Pos(), okSucc && nret > 0, "PaymentCreate can return nil although the settlement it ran overdrew the account (and fired the close hooks): the caller goes on to write an active lease over records the hooks just closed")
+		c.Ob(rule, "PaymentCreate reports success only after the payment record was stored", fn.Pos(), okStored && nret > 0, "PaymentCreate can return nil without having stored a payment: the caller records an active lease that nothing pays for")
 	}
 	c.Ob(rule, "PaymentCreate writes only when that settlement did not overdraw the account", fn.Pos(), okOD, "the settlement's overdrawn result is not tested before the new payment is stored: an open payment can be attached to an account the settlement just closed as overdrawn")
 	c.Ob(rule, "PaymentCreate writes only after a successful settle of an open account", fn.Pos(), ok, "a payment can be created on a closed account / without settling first")
